@@ -17,7 +17,10 @@ TIERS = {"quick": {"runs": 1500, "budget_s": 75, "chunk": 10, "min_runs": 60},
 RULE = ("case = seeded (definition set biased to expression-length arrays, bit-fields, unions, pointers, enums; config; 2-4 "
         "threads each with its own accepted input and script parse/dumps/deref on the SHARED type objects); per case a set "
         "of schedules: PCT-style 1-3 pre-emptions at uniformly drawn global library-line steps, a sweep window placing one pre-emption at each of up to 40 consecutive steps, and overlap "
-        "schedules (the first thread is parked inside a library function, another thread runs until it is inside the same function, then back). "
+        "schedules (the first thread is parked inside a library function, another thread runs until it is inside the same function, then back), "
+        "sandwich schedules (first thread finishes an op, another is stopped inside a function the first thread's next op runs too) and "
+        "first-call schedules (first thread stopped at each line of its FIRST execution of a library function, rarest functions first, "
+        "while another thread runs its whole script or enters that function: races on lazily initialised shared state). "
         "evaluations = schedules executed. distinct_nontrivial = distinct (definition-shape digest, decision log) pairs with "
         ">=1 pre-emption taken at a library line while the pre-empted thread was inside a library call.")
 RULE2 = "distinct library file:function:line locations at which a pre-emption was actually taken"
@@ -61,7 +64,7 @@ def gen_case(rng: random.Random, tier: str):
             ops.append(rng.choice(["dumps", "deref"]))
         threads.append({"data_seed": rng.getrandbits(32), "data": None, "ops": ops, "root": rng.randrange(8)})
     return {"cfg": cfg, "defs": defs, "threads": threads, "sched_seed": rng.getrandbits(32),
-            "n_sched": 24 if tier == "quick" else 60, "trace_enum": rng.random() < 0.3, "opcodes": False,
+            "n_sched": 16 if tier == "quick" else 60, "trace_enum": rng.random() < 0.3, "opcodes": False,
             "schedules": None, "order": rng.sample(range(nthreads), nthreads)}
 
 
@@ -203,7 +206,7 @@ def run_case(case, stats):
             scheds.append(sorted([srng.randrange(1, N + 1), srng.getrandbits(8)] for _ in range(d)))
         # sweep window: one pre-emption at each of up to 40 consecutive steps
         w0 = srng.randrange(1, N + 1)
-        for s in range(w0, min(N, w0 + (40 if case["n_sched"] <= 24 else 120)) + 1):
+        for s in range(w0, min(N, w0 + (30 if case["n_sched"] <= 24 else 120)) + 1):
             scheds.append([[s, srng.getrandbits(8)], [s + srng.randrange(1, 60), srng.getrandbits(8)]])
         # overlap schedules: park the first thread inside a library function F, run another thread until it is inside the
         # same F, switch back - the generic shape of a race on scratch state that F keeps outside its own frame
@@ -226,6 +229,39 @@ def run_case(case, stats):
             rB = [t for t in order if t != A].index(B)
             rA = [t for t in order if t != B].index(A)
             scheds.append([[a + 1, rB], [a + b + 2, rA]])
+        # first-call schedules: the generic shape of a race on LAZILY initialised shared state (check-then-build): the first
+        # thread is stopped at every line of its FIRST execution of a library function F (rarely executed functions first),
+        # and another thread then runs its whole script - or just until it has entered F itself - before the first resumes
+        cnt = {}
+        for k_ in ta:
+            cnt[k_] = cnt.get(k_, 0) + 1
+        others_keys = set()
+        for t_ in order[1:]:
+            others_keys.update(per.get(t_, []))
+        cands = []
+        seen_f = set()
+        for i_, k_ in enumerate(ta):
+            if k_ in seen_f or k_ not in others_keys:
+                continue
+            seen_f.add(k_)
+            j_ = i_
+            while j_ < len(ta) and j_ < i_ + 12 and ta[j_] == k_:
+                cands.append((cnt[k_], j_, k_))
+                j_ += 1
+        cands.sort(key=lambda c_: (min(c_[0], 6), srng.random()))
+        for c_, j_, k_ in cands[: (36 if case["n_sched"] <= 24 else 200)]:
+            B = srng.choice([t for t in order if t != A])
+            rB = [t for t in order if t != A].index(B)
+            if srng.random() < 0.6:
+                scheds.append([[j_ + 1, rB]])
+            else:
+                tb = per.get(B, [])
+                b0 = next((x for x, kk in enumerate(tb) if kk == k_), None)
+                if b0 is None:
+                    scheds.append([[j_ + 1, rB]])
+                else:
+                    rA = [t for t in order if t != B].index(A)
+                    scheds.append([[j_ + 1, rB], [j_ + b0 + 2 + srng.randrange(0, 6), rA]])
         # sandwich schedules: the first thread completes one op, another thread is stopped somewhere inside its own op,
         # the first thread runs its NEXT op, then the other resumes (state remembered from an earlier call of the first
         # thread meets a half-finished call of the other)
